@@ -187,6 +187,33 @@ CLAIMED = {
                  "the value of the controlling expression (C07/C15 rules), defined()/__has_include rewriting, '#' recognition."),
         "note": "Trusted: clang 14 AST/CFG; ivf/spec/cpp_conditional.json.",
     },
+    "C14": {
+        "level": "other",
+        "design_ref": "DESIGN.md section 3, C14 (R14.1-R14.5)",
+        "technique": "effect analysis over the call-graph closure of the three main()s; classification of every traversal of an address-ordered container",
+        "text": ("Decides which sources of run-to-run variation can reach the output: in the ~1400 functions reachable from the three mains the "
+                 "only clock/random/pid call is time() in interrogate's main, reached only when SOURCE_DATE_EPOCH is unset/empty and flowing "
+                 "only into the one module def passed to both writers; getenv only with that literal name; no locale is ever installed; no "
+                 "pointer is printed except in a frozen diagnostic printer; no pointer-keyed unordered container is iterated; every "
+                 "traversal of a std::set<T*>/std::map<T*,...> with the default comparator is classified order-insensitive (flags, "
+                 "partitions, set inclusion, single element, re-sorted by a total address-free comparator, redistributed by the callee) or "
+                 "order-reaching-output.  Eight order-reaching sites in write_module_class are known findings (F-C14b, replayed under "
+                 "MALLOC_MMAP_THRESHOLD_=0); the non-total sort (F-C14a) is fixed.  Not decided: byte identity itself."),
+        "note": "Trusted: clang 14 AST/CFG/call graph; libc getopt's own environment lookup is outside the analysed source.",
+    },
+    "C18": {
+        "level": "other",
+        "design_ref": "DESIGN.md section 3, C18 (R18.1-R18.3)",
+        "technique": "who-may-call route rules for real-number I/O; exact rational check of Grisu2 tables read from initialisers; inexact-accumulation lint",
+        "text": ("Decides the routing and table clauses of C18: in cppparser/interrogate real literals are parsed only through pstrtod and "
+                 "written into generated text only through pdtoa (into a buffer of at least 25 bytes), with no strtod/atof/scanf(%f)/iostream "
+                 "double I/O outside two frozen diagnostic printers; all 87 cached powers of Grisu2 equal the correctly rounded 64-bit "
+                 "significand of 10^(-348+8i) (exact arithmetic on the initialisers), kPow10, cDigitsLut and the DiyFp constants are the "
+                 "defined values; a lint reports that pstrtod's result flows through a loop-carried product with 0.1 and through pow() - "
+                 "three known findings (F-C18a: 0.3 -> 0.30000000000000007, 1e23, 5e-324).  Not decided: correct rounding of pdtoa's digit "
+                 "generation and of pstrtod on all inputs (numerical theorems, not shape properties)."),
+        "note": "Trusted: clang 14 AST (literal values, FloatingLiteral::isExact); Python exact rational arithmetic.",
+    },
 }
 
 NOT_APPLICABLE = {
